@@ -119,4 +119,19 @@ META = {
         note="At a misaligned placement the harness records the signature and performs no element access there (it would be UB in the harness itself).",
         technique="address/length arithmetic monitor over placements x layouts x states",
     ),
+    "C15": dict(
+        text="The Send/Sync/Clone truth table of every public vector, view, handle and iterator type over 8 constraint sets x 9 backends x 5 element classes is printed by a running program and checked against the property's formulas; "
+             "~400 generated hostile programs with controls are built in one batch (a program that must not exist and builds is the refuting event); the admitted cross-thread workload (vectors through channels, shared readers, "
+             "handles moved into scoped threads, lazy clones into per-thread vectors) is executed under Miri's data-race detector over several schedules. Exploration level.",
+        design_ref="DESIGN.md 3/C15, 4",
+        note="Trusted base: rustc's trait solver decides accept/reject for the table and the hostile programs (a compile-time rejection has no execution to monitor; see DESIGN.md 4). For handles the property is one-directional ('only when'): over-strict handles are not flagged.",
+        technique="runtime-evaluated trait table + hostile-program construction with controls + Miri data-race detection on the admitted workload",
+    ),
+    "C19": dict(
+        text="The stack-only workload (element, range, clone, lazy families, histories, SIZE/N grid) is executed by the harness built against any_vec with and without default features: the Vec model must hold in both, a digest of every operation/outcome/snapshot "
+             "per configuration must agree across the builds, and the instrumented global allocator must see no library allocation; the no-default rlib must not depend on alloc or reference allocator symbols, and any_vec::mem::Heap must not be nameable there. Exploration level.",
+        design_ref="DESIGN.md 3/C19",
+        note="'compiles without the alloc crate' and 'offers no heap backend' are build-artifact observations (rustc -Zls=root, nm -u, a compile probe with its control), complemented by the run-time allocation counter.",
+        technique="cross-build differential digest + allocation counter + artifact inspection",
+    ),
 }
